@@ -198,6 +198,22 @@ Proof.
     rewrite Hu, bswap64_invol by exact Hm. rewrite Hcast. rewrite cast_int_self by lia. reflexivity.
 Qed.
 
+(* floats travel as their bit patterns: f32 through swap_bytes_int(.., U32), f64 through swap_bytes_int(.., U64) *)
+Theorem c_big_single_float_lemma fid p v :
+  is_big p = true -> pstart p = 0 ->
+  (kind_of p = KF32 /\ plen p = 32 /\ 0 <= v < 2 ^ 32 \/ kind_of p = KF64 /\ plen p = 64 /\ 0 <= v < 2 ^ 64) ->
+  let f := c_encode_msg fid [p] [v] in
+  cf_word f = bswap (plen p) v /\ c_decode_msg [p] f = [v].
+Proof.
+  intros Hbig Hs Hk. cbv zeta. unfold c_encode_msg, c_decode_msg. cbn [cf_word map]. unfold sig_of.
+  rewrite !Hbig, !Hs, !word_single. unfold c_encode_signal_e, c_decode_signal_e.
+  destruct Hk as [(Hk & Hl & Hv)|(Hk & Hl & Hv)]; rewrite !Hk, !Hl; unfold c_encode_signal, bswap, u64; cbn [Z.eqb Pos.eqb];
+    rewrite !land_mask by lia; rewrite Z.pow_0_r, Z.mul_1_r, ?Z.div_1_r.
+  - rewrite !(Z.mod_small v (2 ^ 32)) by exact Hv. pose proof (bswap32_range v) as Hr.
+    rewrite !(Z.mod_small (bswap32 v) (2 ^ 32)) by exact Hr. split; [reflexivity|]. now rewrite bswap32_invol by exact Hv.
+  - rewrite !(Z.mod_small v (2 ^ 64)) by exact Hv. split; [reflexivity|]. now rewrite bswap64_invol by exact Hv.
+Qed.
+
 (* ---------- and in a message of several signals it fails ---------- *)
 Definition mkpiece (nm : string) (t : sty) (s l : Z) (big : bool) : piece :=
   {| ppath := [nm]; pname := nm; pty := t; pstart := s; plen := l; pend := "little"%string; punit := None;
